@@ -634,3 +634,33 @@ package proxy
 //@   ensures [forwarding-address-is-sent-as-is] called(leg) ==> result.1 == nil && streq(result.0, res(leg))
 //@   ensures [bungeeguard-address-is-sent-as-is] called(bg) ==> result.1 == nil && streq(result.0, res(bg))
 //@   ensures [modern-forge-appends-the-token-to-the-base-host] called(mt) ==> called(base) && streq(result.0, res(base) + res(mt))
+
+// ---- C15: packets the proxy does not intercept are relayed with an identical payload ---------------------------------
+// Relaying hands the other side's connection the very payload slice the decoder produced (packet id + data, C02) - no
+// copy, no re-encoding - through MinecraftConn.Write, which re-frames it for that side's compression setting (C01).
+//@ func forwardToServer
+//@   props C15
+//@   at-call canForward as ok: assert arg0 == player
+//@   at-call Write as relay: assert [payload-untouched] called(ok) && res(ok) != nil && arg0 == res(ok) && ref(arg1) == ref(pc.Payload) && len(arg1) == len(pc.Payload)
+//@   ensures [relayed-iff-a-backend-is-ready] called(ok) && (called(relay) == (res(ok) != nil))
+//@ func (*clientPlaySessionHandler).forwardToServer
+//@   props C15
+//@   at-call forwardToServer as f: assert arg0 == pc && arg1 == c.player
+//@   ensures called(f)
+//@ func (*backendPlaySessionHandler).forwardToPlayer
+//@   props C15
+//@   at-call WritePacket as typed: assert packetContext == nil && arg1 == packet
+//@   at-call Write as relay: assert [payload-untouched] packetContext != nil && ref(arg1) == ref(packetContext.Payload) && len(arg1) == len(packetContext.Payload)
+//@   ensures [raw-context-wins] (packetContext != nil) == called(relay) && (packetContext == nil) == called(typed)
+// Unknown packet ids (nothing to intercept) are relayed at once, before any handler sees them, in both directions.
+//@ func (*backendPlaySessionHandler).HandlePacket
+//@   props C15
+//@   at-call KnownPacket as kp: assert arg0 == pc
+//@   at-call forwardToPlayer#1 as unk: assert [unknown-packets-are-relayed-raw] called(kp) && !res(kp) && arg1 == pc && isnil(arg2)
+//@   at-call shouldHandle as sh: assert called(kp) && res(kp)
+//@   ensures [unknown-is-relayed-and-nothing-else] called(kp) && (!res(kp) ==> called(unk) && !called(sh))
+//@ func (*clientPlaySessionHandler).HandlePacket
+//@   props C15
+//@   at-call KnownPacket as kp: assert arg0 == pc
+//@   at-call forwardToServer#1 as unk: assert [unknown-packets-are-relayed-raw] called(kp) && !res(kp) && arg1 == pc
+//@   ensures [unknown-is-relayed] called(kp) && (!res(kp) ==> called(unk))
